@@ -396,7 +396,10 @@ func exclusiveProp(t *rapid.T) {
 	// the further connection attempts come either from dialers that call the server, or from the
 	// server's own dialers calling stand-by peers (then it is the server's side that refuses them)
 	serverDials := rapid.IntRange(0, 2).Draw(t, "serverDials") == 0
-	doc := map[string]interface{}{"test": "TestC02PairExclusive", "proto": name, "transport": tr, "intruders": nintr, "msgs": nmsg, "serverDials": serverDials, "rseed": os.Getenv("VERIF_RSEED")}
+	// the application may turn the very first connection away in its Attaching callback: that
+	// attempt is "refused" too, and the next one must be admitted as if nothing had happened
+	hookRejects := rapid.IntRange(0, 3).Draw(t, "hookRejectsFirst") == 0
+	doc := map[string]interface{}{"test": "TestC02PairExclusive", "proto": name, "transport": tr, "intruders": nintr, "msgs": nmsg, "serverDials": serverDials, "hookRejectsFirst": hookRejects, "rseed": os.Getenv("VERIF_RSEED")}
 	fail := func(k, f string, a ...interface{}) {
 		stats.Fail(t, "C02:pair-"+k, doc, "%s over %s with %d intruders: %s", name, tr, nintr, fmt.Sprintf(f, a...))
 	}
@@ -405,8 +408,15 @@ func exclusiveProp(t *rapid.T) {
 	// event log on the server: never two pipes attached at once
 	var emu sync.Mutex
 	live, maxLive, attached := 0, 0, 0
-	srv.SetPipeEventHook(func(ev mangos.PipeEvent, _ mangos.Pipe) {
+	rejectNext := hookRejects
+	srv.SetPipeEventHook(func(ev mangos.PipeEvent, hp mangos.Pipe) {
 		emu.Lock()
+		if ev == mangos.PipeEventAttaching && rejectNext {
+			rejectNext = false
+			emu.Unlock()
+			_ = hp.Close()
+			return
+		}
 		switch ev {
 		case mangos.PipeEventAttached:
 			live++
@@ -425,11 +435,15 @@ func exclusiveProp(t *rapid.T) {
 	}
 	first := fixture.New(name)
 	fev := fixture.Hook(first)
-	if _, err := fixture.Dial(first, addr); err != nil {
-		t.Fatalf("harness: %v", err)
+	fopts := fixture.DialOpts(tr)
+	if fopts == nil {
+		fopts = map[string]interface{}{}
 	}
-	if !fev.WaitAttached(1, 5*time.Second) {
-		t.Fatalf("harness: first peer not attached")
+	fopts[mangos.OptionDialAsynch] = true
+	fopts[mangos.OptionReconnectTime] = 5 * time.Millisecond
+	fopts[mangos.OptionMaxReconnectTime] = 5 * time.Millisecond
+	if err := first.DialOptions(addr, fopts); err != nil {
+		t.Fatalf("harness: %v", err)
 	}
 	waitSrv := func(n int) bool {
 		dl := time.Now().Add(5 * time.Second)
@@ -445,8 +459,13 @@ func exclusiveProp(t *rapid.T) {
 		return false
 	}
 	if !waitSrv(1) {
+		if hookRejects {
+			fail("no-peer-after-rejection", "after the application turned the first connection away in its Attaching callback no further connection was admitted within 5s")
+			return
+		}
 		t.Fatalf("harness: server did not attach the first peer")
 	}
+	_ = fev
 	// intruders
 	intr := make([]mangos.Socket, nintr)
 	stop := make(chan struct{})
@@ -553,6 +572,9 @@ func exclusiveProp(t *rapid.T) {
 	stats.Class("pair_exclusive:" + name)
 	if serverDials {
 		stats.Class("pair_exclusive_server_dials_standby")
+	}
+	if hookRejects {
+		stats.Class("pair_exclusive_hook_rejects_first")
 	}
 	stats.NonTrivial(fmt.Sprintf("B|%s|%s|%d|%d|%v", name, tr, nintr, nmsg, serverDials))
 	stats.Sample(doc)
